@@ -2,12 +2,15 @@
 
 Generated: the `Method`, `Version` and parse-state enums, the method table of `HttpRequest::setMethod`
 (the if-chain, its fall-back value and the returned test), the `methodString` table, the separators
-`processRequestLine` searches for, its version test (length, prefix literal, final-character table), the
+`processRequestLine` searches for (with the pointer range of each `std::find`), the guard it puts on the
+request-target (`space != end && question != start && std::find_if(start, space, isControl) == space`, as a
+proposition over offsets from `start`) and the byte predicate `isControl` that guard uses, its version test
+(length, prefix literal, final-character table), the
 header separator and the line-terminator length of `parseRequest`, and which parse states have an arm in
 `parseRequest`'s `while (hasMore)` loop and which of those arms are empty.
 Loops and the pointer walk itself are hand-modelled (DESIGN.md section 8).
 """
-from ..extract import HEADER, ExtractError, ast_dump, body_of, kids, strip, walk
+from ..extract import HEADER, ExtractError, Tr, ast_dump, body_of, kids, prop_def, strip, unparen, walk
 
 NAME = "Http"
 
@@ -133,6 +136,63 @@ def char_of_find(call):
     return int(lits[0]["value"])
 
 
+def ref_names(call):
+    """names of the arguments of a call that are plain references (None for anything else)"""
+    res = []
+    for a in kids(call)[1:]:
+        a = strip(a)
+        res.append(a["referencedDecl"].get("name") if a.get("kind") == "DeclRefExpr" else None)
+    return res
+
+
+def byte_operand(n, param):
+    """`static_cast<unsigned char>(c)` -> 'u', plain `c` (a `char`, promoted to int) -> 's', else None"""
+    signed = True
+    while True:
+        k = n.get("kind")
+        if k == "ParenExpr":
+            n = kids(n)[0]
+        elif k == "ImplicitCastExpr" and n.get("castKind") in ("LValueToRValue", "IntegralCast", "NoOp"):
+            n = kids(n)[0]
+        elif k in ("CXXStaticCastExpr", "CStyleCastExpr", "CXXFunctionalCastExpr") and n.get("castKind") in ("IntegralCast", "NoOp"):
+            if n.get("type", {}).get("qualType") not in ("unsigned char", "uint8_t"):
+                return None
+            signed = False
+            n = kids(n)[0]
+        else:
+            break
+    if n.get("kind") == "DeclRefExpr" and n["referencedDecl"].get("name") == param:
+        return "s" if signed else "u"
+    return None
+
+
+def byte_pred(n, param):
+    """a boolean expression over one `char` parameter -> Lean proposition over `c : UInt8` (the byte as stored).
+    Supported: `||`, `&&`, `!`, comparisons of `static_cast<unsigned char>(c)` with an integer literal, and `==` / `!=`
+    of the plain `char` with a literal in 0..127 (there the sign of `char` makes no difference)."""
+    while n.get("kind") in ("ParenExpr", "ExprWithCleanups") or (
+            n.get("kind") == "ImplicitCastExpr" and n.get("castKind") in ("NoOp",)):
+        n = kids(n)[0]
+    k = n.get("kind")
+    if k == "BinaryOperator" and n.get("opcode") in ("||", "&&"):
+        a, b = kids(n)
+        return "(%s %s %s)" % (byte_pred(a, param), "∨" if n["opcode"] == "||" else "∧", byte_pred(b, param))
+    if k == "UnaryOperator" and n.get("opcode") == "!":
+        return "¬ %s" % byte_pred(kids(n)[0], param)
+    ops = {"<": "<", "<=": "≤", ">": ">", ">=": "≥", "==": "=", "!=": "≠"}
+    if k == "BinaryOperator" and n.get("opcode") in ops:
+        a, b = kids(n)
+        lit = strip(b)
+        how = byte_operand(a, param)
+        if how is None or lit.get("kind") != "IntegerLiteral":
+            raise ExtractError("isControl: a comparison is not `<the byte> <op> <literal>`")
+        v = int(lit["value"])
+        if how == "s" and not (n["opcode"] in ("==", "!=") and 0 <= v <= 127):
+            raise ExtractError("isControl: comparison of the plain (possibly signed) char outside the subset")
+        return "(c.toNat %s %d)" % (ops[n["opcode"]], v)
+    raise ExtractError("isControl: expression node %s outside the subset" % k)
+
+
 def generate():
     docs = ast_dump("muduo/net/http/HttpContext.cc", "muduo::net::Http")
     req = record(docs, "HttpRequest")
@@ -224,9 +284,85 @@ def generate():
     if len(finds) != 3:
         raise ExtractError("processRequestLine: expected three std::find calls, found %d" % len(finds))
     seps = [char_of_find(f) for f in finds]
+    ranges = [ref_names(f)[:2] for f in finds]
+    if ranges != [["start", "end"], ["start", "end"], ["start", "space"]]:
+        raise ExtractError("processRequestLine: the std::find calls search %r, expected (start,end) (start,end) (start,space)" % ranges)
     out.append("/-- `processRequestLine`: the bytes searched by the three `std::find` calls "
                "(after the method, after the target, start of the query) -/")
     out.append("def methodSep : UInt8 := %d\ndef targetSep : UInt8 := %d\ndef querySep : UInt8 := %d\n" % tuple(seps))
+    # ---- the block behind the method: `start = space+1; space = find(start, end, ' ');
+    #      const char* question = find(start, space, '?'); if (<target guard>) {...}`
+    outer = [x for x in kids(body_of(prl)) if x.get("kind") == "IfStmt"]
+    if len(outer) != 1 or len(kids(outer[0])) != 2 or kids(outer[0])[1].get("kind") != "CompoundStmt":
+        raise ExtractError("processRequestLine: expected one top-level `if (...) {...}` without else")
+    if finds[0] not in list(walk(kids(outer[0])[0])) and not any(
+            finds[0] in list(walk(x)) for x in kids(body_of(prl)) if x is not outer[0]):
+        raise ExtractError("processRequestLine: the first std::find is not in front of the method test")
+    blk = kids(kids(outer[0])[1])
+    if len(blk) != 4:
+        raise ExtractError("processRequestLine: the block behind the method test has %d statements, expected 4" % len(blk))
+    s_start, s_space, s_q, s_if = blk
+    a = strip(s_start)
+    ok = (a.get("kind") == "BinaryOperator" and a.get("opcode") == "="
+          and strip(kids(a)[0]).get("referencedDecl", {}).get("name") == "start")
+    if ok:
+        r = strip(kids(a)[1])
+        ok = (r.get("kind") == "BinaryOperator" and r.get("opcode") == "+"
+              and strip(kids(r)[0]).get("referencedDecl", {}).get("name") == "space"
+              and strip(kids(r)[1]).get("kind") == "IntegerLiteral" and int(strip(kids(r)[1])["value"]) == 1)
+    if not ok:
+        raise ExtractError("processRequestLine: `start = space+1` not found behind the method test")
+    a = strip(s_space)
+    if not (a.get("kind") == "BinaryOperator" and a.get("opcode") == "="
+            and strip(kids(a)[0]).get("referencedDecl", {}).get("name") == "space" and strip(kids(a)[1]) is finds[1]):
+        raise ExtractError("processRequestLine: `space = std::find(start, end, ' ')` not found behind the method test")
+    qv = [v for v in kids(s_q) if v.get("kind") == "VarDecl"] if s_q.get("kind") == "DeclStmt" else []
+    if len(qv) != 1 or qv[0].get("name") != "question" or not kids(qv[0]) or strip(kids(qv[0])[0]) is not finds[2]:
+        raise ExtractError("processRequestLine: `const char* question = std::find(start, space, '?')` not found in front of the target test")
+    if s_if.get("kind") != "IfStmt" or len(kids(s_if)) != 2:
+        raise ExtractError("processRequestLine: the target test is not an `if` without else")
+    fi = calls(s_if, "find_if")
+    if len(calls(prl, "find_if")) != 1 or len(fi) != 1 or fi[0] not in list(walk(kids(s_if)[0])):
+        raise ExtractError("processRequestLine: expected exactly one std::find_if, in the target test")
+    if ref_names(fi[0]) != ["start", "space", "isControl"]:
+        raise ExtractError("processRequestLine: std::find_if is not called on (start, space, isControl)")
+    pred_ref = strip(kids(fi[0])[3])["referencedDecl"]
+    # reassignments of the pointers inside the condition or between the statements would invalidate the offsets
+    for x in walk(kids(s_if)[0]):
+        if x.get("kind") in ("UnaryOperator", "CompoundAssignOperator") and x.get("opcode") in ("++", "--", "+=", "-=") \
+                or (x.get("kind") == "BinaryOperator" and x.get("opcode") == "="):
+            raise ExtractError("processRequestLine: the target test has a side effect")
+    t = Tr({"space": "spaceOff", "end": "endOff", "question": "questionOff", "start": "0",
+            "find_if(start,space,isControl)": "ctlOff"})
+    guard = unparen(t.expr(kids(s_if)[0]))
+    if not {"space", "end", "question", "start", "find_if(start,space,isControl)"} <= t.used:
+        raise ExtractError("processRequestLine: the target test no longer uses %s" % sorted(
+            {"space", "end", "question", "start", "find_if(start,space,isControl)"} - t.used))
+    out.append(prop_def("targetAccepted", [("spaceOff", "Nat"), ("endOff", "Nat"), ("questionOff", "Nat"), ("ctlOff", "Nat")], guard,
+                        "`processRequestLine`: the test on the request-target; pointers as offsets from `start` (the byte behind "
+                        "the first separator): `space`, `end`, `question = find(start, space, querySep)`, "
+                        "`find_if(start, space, isControl)`"))
+    # the path/query assignment and the version test sit inside that `if`
+    inner = kids(kids(s_if)[1]) if kids(s_if)[1].get("kind") == "CompoundStmt" else []
+    for nm in ("setPath", "setQuery", "equal", "setVersion"):
+        if not calls(prl, nm) or any(c not in [y for st in inner for y in walk(st)] for c in calls(prl, nm)):
+            raise ExtractError("processRequestLine: %s is not (only) called under the target test" % nm)
+    # ---- isControl
+    idocs = ast_dump("muduo/net/http/HttpContext.cc", "isControl")
+    fns = [n for d in idocs for n in walk(d) if n.get("kind") == "FunctionDecl" and n.get("name") == "isControl"
+           and body_of(n) is not None]
+    # (node ids differ between two clang runs: identify the function by being the only one of that name and type)
+    if len(fns) != 1 or fns[0].get("type", {}).get("qualType") != pred_ref.get("type", {}).get("qualType"):
+        raise ExtractError("expected exactly one definition of the `isControl` that std::find_if uses, found %d" % len(fns))
+    ps = [p for p in kids(fns[0]) if p.get("kind") == "ParmVarDecl"]
+    if len(ps) != 1 or ps[0].get("type", {}).get("qualType") != "char":
+        raise ExtractError("isControl: expected one `char` parameter")
+    stm = kids(body_of(fns[0]))
+    if len(stm) != 1 or stm[0].get("kind") != "ReturnStmt":
+        raise ExtractError("isControl: the body is not a single return")
+    out.append("/-- `isControl(char c)` (HttpContext.cc), on the byte as stored -/\ndef isControl (c : UInt8) : Prop := %s"
+               % unparen(byte_pred(kids(stm[0])[0], ps[0]["name"])))
+    out.append("instance : Decidable (isControl c) := by unfold isControl; infer_instance\n")
     eq = calls(prl, "equal")
     if len(eq) != 1:
         raise ExtractError("processRequestLine: std::equal not found")
